@@ -18,10 +18,17 @@ def main():
     ap.add_argument('prop')
     ap.add_argument('--tier', default=os.environ.get('VERIF_TIER', 'quick'), choices=['quick', 'thorough'])
     ap.add_argument('--replay')
+    ap.add_argument('--fresh-digest', type=int)
     a = ap.parse_args()
     if a.prop not in kernel.ENGINES:
         print('unknown property', a.prop)
         return 2
+    if a.fresh_digest is not None:
+        engine = kernel.load_engine(a.prop)
+        seed = int(os.environ.get('VERIF_SEED', '0') or 0)
+        res = kernel.execute_guarded(engine, kernel.make_scenario(engine, a.prop, a.tier, seed, a.fresh_digest))
+        print('FRESH-DIGEST', res['digest'] if not res.get('harness') else 'error:' + str(res.get('harness'))[:200])
+        return 0
     if a.replay:
         return kernel.do_replay(a.prop, a.replay)
     return kernel.run_check(a.prop, a.tier)
